@@ -69,6 +69,9 @@ type caseRec struct {
 	Enc2Same    bool   `json:"enc2_same"`
 	Enc2Hex     string `json:"enc2_hex,omitempty"`
 	RtEqualSrc  bool   `json:"rt_equal_src"`
+	// the Go type an untyped destination received, at every level, against the documented preferred types (prefdoc.go, written from doc.go)
+	DecType    string `json:"dec_type,omitempty"`
+	PrefDiffer string `json:"pref_differs,omitempty"` // "" = as documented
 }
 
 var altTurn int
@@ -227,6 +230,10 @@ func runCase(id string, t *ctype, r *rep, a *aval, ver primitive.ProtocolVersion
 		rec.DecCoq = d.canon().coq()
 		rec.RtEqual = aEqual(d, a) && (wasNull == (a.kind == "null" || enc == nil))
 		rec.RtEqualSrc = aEqual(d, after)
+		if dest != nil {
+			rec.DecType = reflect.TypeOf(dest).String()
+			rec.PrefDiffer = prefDiffers(t, reflect.ValueOf(dest), t.dt.AsCql())
+		}
 	}
 	// same representation
 	dt := r.gt
@@ -290,7 +297,16 @@ func (g *gen) value(t *ctype, allowNull bool) *aval {
 		for i := 0; i < n; i++ {
 			var k *aval
 			if ident && (t.key.scalar == "SVarchar" || t.key.scalar == "SAscii") {
-				k = aBytes([]byte(string(rune('a'+g.pick(26))) + strconv.Itoa(g.pick(10))))
+				// identifier keys (a struct can stand for the map): lower case, mixed case ("uK3"), upper case ("UK3")
+				l1, l2, d := string(rune('a'+g.pick(26))), string(rune('a'+g.pick(26))), strconv.Itoa(g.pick(10))
+				switch g.pick(3) {
+				case 0:
+					k = aBytes([]byte(l1 + d))
+				case 1:
+					k = aBytes([]byte(l1 + strings.ToUpper(l2) + d))
+				default:
+					k = aBytes([]byte(strings.ToUpper(l1+l2) + d))
+				}
 			} else {
 				k = g.value(t.key, g.pick(4) == 0)
 			}
